@@ -26,7 +26,8 @@
        (the re-pitch rule - a pitch bend re-pitches every key-down note of its channel in the same
         call - is stated over note sets in PitchMC / PitchTrace.)
 
-   (3) MODEL of OPN2::noteOn (src/opnmidi_opn2.cpp) on the exact reference value: the octave loop
+   (3) MODEL of OPN2::noteOn (src/opnmidi_opn2.cpp) on the exact reference value: the cap of `hertz` at
+       131071 (tone 204), the octave loop
        (`while(hertz >= 1023.75 && octave < 0x3800)`), the multiplier-offset loop
        (`while(hertz >= 2036.75)`), rounding `hertz + 0.5`, and the multiplier clamp quirk
        (the first operator whose multiplier would exceed 15 is clamped and clears the offset for
@@ -186,13 +187,17 @@ ModelFromMO(mo, muls) ==
   LET oct == OctLoop(mo, 0)
       t == MulLoop(mo, oct)            \* total number of halvings
   IN [b |-> oct, w |-> (RefAt(mo, t) + 128) \div 256, mo |-> t - oct, mm |-> PackMul(MulOut(muls, t - oct, 1))]
-ModelNoteOn(P, fam, muls) == ModelFromMO(MantOct(P, fam), muls)
+(* `if(!(hertz <= 131071.0)) hertz = 131071.0;` before the chip coefficient is applied (the repair of F10):
+   exp(0.057762265 * tone) = 131071 at tone = 12 log2(131071) = 204 semitones - 138.5 units. *)
+HertzCap == 204 * U - 139
+ModelNoteOn(P, fam, muls) == ModelFromMO(MantOct(Min(P, HertzCap), fam), muls)
 \* a recorded write agrees with the model at P or within Delta units of P (thresholds decided in floating point)
 Delta == 256       \* 2.4 * 10^-4 semitone = 1.4 * 10^-5 relative (the OPNA coefficient of the code is 1.1 * 10^-5 off)
 Agrees(m, w, b, mm) == m.b = b /\ Abs(m.w - w) <= 1 /\ m.mm = mm
 \* mo = MantOct(P, fam), computed once by the caller
 ModelAgreesMO(w, b, mm, mo, P, fam, muls) ==
-  \/ Agrees(ModelFromMO(mo, muls), w, b, mm)
+  \/ P <= HertzCap /\ Agrees(ModelFromMO(mo, muls), w, b, mm)
+  \/ Agrees(ModelNoteOn(P, fam, muls), w, b, mm)
   \/ Agrees(ModelNoteOn(P - Delta, fam, muls), w, b, mm)
   \/ Agrees(ModelNoteOn(P + Delta, fam, muls), w, b, mm)
 ModelAgrees(w, b, mm, P, fam, muls) ==
